@@ -39,7 +39,10 @@ use tokio::sync::{
 use std::{
     collections::{HashMap, HashSet},
     pin::Pin,
-    sync::Arc,
+    sync::{
+        atomic::{AtomicUsize, Ordering},
+        Arc,
+    },
     task::{Context, Poll},
 };
 
@@ -132,7 +135,16 @@ pub struct NotificationSink {
 
     /// TX channel for sending notifications asynchronously.
     async_tx: Sender<Vec<u8>>,
+
+    /// Identifier of the notification stream this sink belongs to.
+    ///
+    /// Notifications received over the stream carry the same identifier so that
+    /// [`NotificationHandle`] can tell them apart from those of an earlier stream to `peer`.
+    stream_id: usize,
 }
+
+/// Source of notification stream identifiers.
+static NEXT_STREAM_ID: AtomicUsize = AtomicUsize::new(0usize);
 
 impl NotificationSink {
     /// Create new [`NotificationSink`].
@@ -141,7 +153,13 @@ impl NotificationSink {
             peer,
             async_tx,
             sync_tx,
+            stream_id: NEXT_STREAM_ID.fetch_add(1usize, Ordering::Relaxed),
         }
+    }
+
+    /// Get the identifier of the notification stream.
+    pub(crate) fn stream_id(&self) -> usize {
+        self.stream_id
     }
 
     /// Send notification to `peer` synchronously.
@@ -182,7 +200,7 @@ pub struct NotificationHandle {
     event_rx: Receiver<InnerNotificationEvent>,
 
     /// RX channel for receiving notifications from connection handlers.
-    notif_rx: Receiver<(PeerId, BytesMut)>,
+    notif_rx: Receiver<(PeerId, usize, BytesMut)>,
 
     /// TX channel for sending commands to the notification protocol.
     command_tx: Sender<NotificationCommand>,
@@ -207,7 +225,7 @@ impl NotificationHandle {
     /// Create new [`NotificationHandle`].
     pub(crate) fn new(
         event_rx: Receiver<InnerNotificationEvent>,
-        notif_rx: Receiver<(PeerId, BytesMut)>,
+        notif_rx: Receiver<(PeerId, usize, BytesMut)>,
         command_tx: Sender<NotificationCommand>,
         handshake: Arc<RwLock<Vec<u8>>>,
         protocol_name: ProtocolName,
@@ -563,8 +581,10 @@ impl Stream for NotificationHandle {
 
             match futures::ready!(self.notif_rx.poll_recv(cx)) {
                 None => return Poll::Ready(None),
-                Some((peer, notification)) =>
-                    if self.peers.contains_key(&peer) {
+                // a notification of an earlier stream to `peer` that was still queued when the
+                // stream was closed must not be reported as part of the current stream
+                Some((peer, stream_id, notification)) =>
+                    if self.peers.get(&peer).map_or(false, |sink| sink.stream_id() == stream_id) {
                         return Poll::Ready(Some(NotificationEvent::NotificationReceived {
                             peer,
                             notification,
